@@ -165,11 +165,13 @@ struct Case {
     recursive: bool,
     trailing: bool,
     inputs: Vec<String>,
+    /// build the tree first (verify / needed / clean then run over real outputs)
+    prebuild: bool,
 }
 
 impl Case {
     fn json(&self) -> Value {
-        json!({"symlinks": self.symlinks.iter().map(|(a, b)| vec![a.clone(), b.clone()]).collect::<Vec<_>>(), "files": files_json(&self.files), "mode": crate::run::mode_name(&self.mode), "threads": self.threads, "recursive": self.recursive, "trailing": self.trailing, "inputs": self.inputs})
+        json!({"symlinks": self.symlinks.iter().map(|(a, b)| vec![a.clone(), b.clone()]).collect::<Vec<_>>(), "files": files_json(&self.files), "mode": crate::run::mode_name(&self.mode), "threads": self.threads, "recursive": self.recursive, "trailing": self.trailing, "inputs": self.inputs, "prebuild": self.prebuild})
     }
     fn from(v: &Value) -> Self {
         Self {
@@ -180,6 +182,7 @@ impl Case {
             recursive: v["recursive"].as_bool().unwrap_or(true),
             trailing: v["trailing"].as_bool().unwrap_or(true),
             inputs: v["inputs"].as_array().map(|a| a.iter().filter_map(|x| x.as_str().map(String::from)).collect()).unwrap_or_else(|| vec![".".into()]),
+            prebuild: v["prebuild"].as_bool().unwrap_or(false),
         }
     }
 }
@@ -237,7 +240,7 @@ fn gen_case(r: &mut StdRng) -> Case {
             _ => ("other".to_string(), "sub".to_string()),
         });
     }
-    Case { symlinks, files, mode, threads: if r.gen_bool(0.1) { 0 } else { r.gen_range(0..=16) }, recursive: r.gen_bool(0.6), trailing: r.gen_bool(0.6), inputs }
+    Case { symlinks, files, mode, threads: if r.gen_bool(0.1) { 0 } else { r.gen_range(0..=16) }, recursive: r.gen_bool(0.6), trailing: r.gen_bool(0.6), inputs, prebuild: r.gen_bool(0.25) }
 }
 
 fn check(ctx: &mut Ctx, c: &Case) {
@@ -246,6 +249,10 @@ fn check(ctx: &mut Ctx, c: &Case) {
     materialize(&root, &c.files, &[]);
     for (link, target) in &c.symlinks {
         let _ = std::os::unix::fs::symlink(target, root.join(link));
+    }
+    if c.prebuild && !matches!(c.mode, Mode::Build) {
+        let pre = RunCfg { base: root.clone(), inputs: c.inputs.clone(), mode: Mode::Build, threads: c.threads, recursive: c.recursive, trailing: c.trailing, shell: "/bin/echo".into() };
+        let _ = run_inproc(&pre, Spec::Free { delay: None }, Some(&root), false);
     }
     let cfg = RunCfg { base: root.clone(), inputs: c.inputs.clone(), mode: c.mode.clone(), threads: c.threads, recursive: c.recursive, trailing: c.trailing, shell: "/bin/echo".into() };
     let o = run_inproc(&cfg, Spec::Free { delay: None }, Some(&root), false);
@@ -275,6 +282,9 @@ fn check(ctx: &mut Ctx, c: &Case) {
         Verdict::MainPanic(m) => ctx.violation(format!("C18:panic:main:{shape}"), format!("the thread calling Txtpp::run panicked: {m}; {:?}", o.panics), c.json()),
         Verdict::Watchdog => ctx.inconclusive("watchdog expired (not decided)"),
         _ => {}
+    }
+    if o.late_tasks > 0 {
+        ctx.violation(format!("C18:workers-outlive-run:{}", crate::run::mode_name(&c.mode)), format!("Txtpp::run returned while {} worker task(s) were still running; panics afterwards: {:?}", o.late_tasks, o.panics), c.json());
     }
     if o.trace.panicked_tasks > 0 || (!o.panics.is_empty() && !matches!(o.verdict, Verdict::MainPanic(_))) {
         ctx.violation(format!("C18:panic:worker:{}", crate::run::mode_name(&c.mode)), format!("a txtpp thread panicked: {:?}", o.panics), c.json());
